@@ -145,6 +145,7 @@ func histoShown(counter *aggregation.MatchCounter, model map[string]int64, n int
 func checkHistoRender(vt *multiterm.VirtualTerm, shown []kv, total int64, c HistoCase, f func(int64, int64, int64) string, histMax *int64, o *pbt.Obs) error {
 	var bars []barObs
 	maxNow := int64(math.MinInt64)
+	lineBounds := "" // min/max handed to the formatter, as the first parsed line shows them
 	for i, it := range shown {
 		if it.val > maxNow {
 			maxNow = it.val
@@ -172,7 +173,21 @@ func checkHistoRender(vt *multiterm.VirtualTerm, shown []kv, total int64, c Hist
 		}
 		if !valueOnly(c.Format) {
 			// the formatter reads min/max; which ones a renderer hands
-			// over is not stated: the rest of the line is not read.
+			// over is not stated, so the number itself is not compared. One
+			// thing holds whatever "the set" is: one render has one set, so
+			// every line of it carries the same min/max (a line left over
+			// from before the maximum moved does not).
+			if c.Format == "{0}/{min}/{max}" {
+				if m := boundsCell.FindStringSubmatch(t); m != nil && strings.HasPrefix(t, m[0]) {
+					b := m[2] + "/" + m[3]
+					if lineBounds == "" {
+						lineBounds = b
+					} else if b != lineBounds {
+						return fmt.Errorf("%s: shows %q with min/max %s, an earlier line of the same render carries %s (\"the min/max value in the set\")", where, m[0], b, lineBounds)
+					}
+					o.Label(true, "bounds-law-checked")
+				}
+			}
 			pbt.Exclude("formatter depending on min/max: displayed number not compared")
 			continue
 		}
